@@ -104,6 +104,9 @@ Rfc4034Key ==   \* RFC 4034 5.4: dskey.example.com. DNSKEY 256 3 5 ( AQOeiiR0...
       6, 96, 3, 140, 80, 220, 219, 15, 235, 150, 60, 47, 23>>
 KnownAnswers ==
     /\ KeyTag(Rfc4034Key) = 60485
+    (* the constructed keys really sit where a second carry would appear, and App. B truncates there *)
+    /\ {KeySum(rd) : rd \in CarryKeys} = {131071, 196606, 262141, 131070}
+    /\ KeyTag(<<1, 1, 3, 8, 255, 255, 251, 247>>) = 0 /\ KeyTag(<<1, 1, 3, 8, 255, 255, 251, 246>>) = 65535
     /\ Base32Hex(<<102, 111, 111, 98, 97>>) = <<99, 112, 110, 109, 117, 111, 106, 49>>     \* RFC 4648 10: "fooba" -> CPNMUOJ1
     /\ BitmapWire({1, 15, 46, 47, 1234}) =                                                 \* RFC 4034 4.3 example
            <<0, 6, 64, 1, 0, 0, 0, 3, 4, 27, 0, 0, 0, 0, 0, 0, 0, 0, 0, 0, 0, 0, 0, 0, 0, 0, 0, 0, 0, 0, 0, 0, 0, 0, 0, 0, 32>>
